@@ -24,6 +24,7 @@ type Part struct {
 	Parallel int    // children run concurrently
 	TimeoutS int    // wall-clock watchdog per child; firing = inconclusive
 	Env      []string
+	Races    bool // DATA RACE blocks in the child's race log are violations of this property (C18); otherwise only counted
 	// CrashIsViolation: a child that dies with a Go panic/fatal error is a violation of the property
 	// (true for every part: the property-specific signature says where).
 }
@@ -175,7 +176,11 @@ func RunPlan(pl Plan, tier string, seed uint64) int {
 			counters["children_crashed"]++
 		}
 		for _, v := range r.races {
-			addV(v)
+			if r.part.Races {
+				addV(v)
+			} else {
+				counters["race_reports_seen_but_not_this_propertys_subject"]++
+			}
 		}
 		if r.report != nil {
 			rep := r.report
@@ -384,7 +389,7 @@ func runChild(prop string, p Part, batch int, tier string, seed uint64, work str
 		for _, f := range files {
 			vs, harnessOnly := ParseRaceLog(f)
 			res.races = append(res.races, vs...)
-			if harnessOnly > 0 {
+			if harnessOnly > 0 && p.Races {
 				res.broken = fmt.Sprintf("%d race report(s) entirely inside harness code (see %s)", harnessOnly, f)
 			}
 		}
